@@ -1294,6 +1294,8 @@ def normalize(repo: Repo, ci: Optional[ClassInfo], fn: ast.FunctionDef, sf: Opti
     if any(isinstance(n, ast.Assign) and isinstance(n.value, ast.Constant) and isinstance(n.value.value, bool) for n in ast.walk(out)) \
             and any(isinstance(n, ast.For) for n in ast.walk(out)):
         out = fold_flag_loops(out)
+    if any(isinstance(n, ast.While) and isinstance(n.test, ast.Name) for n in ast.walk(out)):
+        out = pop_loops_as_for(out)
     if any(isinstance(n, ast.With) for n in ast.walk(out)) and any(isinstance(n, ast.Call) and norm(n.func).split(".")[-1] == "suppress" for n in ast.walk(out)):
         out = desugar_suppress(out)
     # named integer constants of the module (`_NOTE_SIZE = 8`, `CHUNK_HEADER_SIZE = 8`) read as their values
@@ -1937,6 +1939,46 @@ def nest_loop_continues(fn: ast.FunctionDef) -> ast.FunctionDef:
                                 changed = True
         if not changed:
             break
+    ast.fix_missing_locations(new)
+    number(new)
+    return new
+
+
+def pop_loops_as_for(fn: ast.FunctionDef) -> ast.FunctionDef:
+    """`while L: T = L.pop(); BODY`  (L a once-bound local list that nothing else touches)  reads as  `for T in reversed(L): BODY`;
+    with `L.pop(0)` it is `for T in L`."""
+    stores: Dict[str, int] = {}
+    for n in ast.walk(fn):
+        if isinstance(n, ast.Name) and isinstance(n.ctx, (ast.Store, ast.Del)):
+            stores[n.id] = stores.get(n.id, 0) + 1
+
+    class X(ast.NodeTransformer):
+        def visit_While(self, node):
+            node = self.generic_visit(node)
+            if node.orelse or not isinstance(node.test, ast.Name) or stores.get(node.test.id) != 1 or not node.body:
+                return node
+            L = node.test.id
+            first = node.body[0]
+            if not (isinstance(first, ast.Assign) and len(first.targets) == 1 and isinstance(first.value, ast.Call)
+                    and isinstance(first.value.func, ast.Attribute) and first.value.func.attr == "pop" and norm(first.value.func.value) == L):
+                return node
+            args = first.value.args
+            front = len(args) == 1 and isinstance(args[0], ast.Constant) and args[0].value == 0
+            if args and not front:
+                return node
+            rest = node.body[1:]
+            if any(isinstance(x, ast.Name) and x.id == L for b in rest for x in ast.walk(b)) or \
+                    any(isinstance(x, (ast.Break, ast.Continue)) for b in rest for x in ast.walk(b)):
+                return node
+            uses_elsewhere = sum(1 for x in ast.walk(fn) if isinstance(x, ast.Name) and x.id == L and isinstance(x.ctx, ast.Load))
+            if uses_elsewhere != 2:            # the loop test and the pop
+                return node
+            it: ast.expr = ast.Name(id=L, ctx=ast.Load())
+            if not front:
+                it = ast.Call(func=ast.Name(id="reversed", ctx=ast.Load()), args=[it], keywords=[])
+            return ast.copy_location(ast.For(target=first.targets[0], iter=it, body=rest or [ast.Pass()], orelse=[]), node)
+    new = copy.deepcopy(fn)
+    X().visit(new)
     ast.fix_missing_locations(new)
     number(new)
     return new
